@@ -35,10 +35,103 @@ def slotRun (bufSize : Nat) : Option SlotBuf → List Sentence → List (List Se
       let (outs, fin, ok) := slotRun bufSize st' rest
       (out :: outs, fin, ok)
 
+/-! ## association lists (`List.lookup` with any lawful `BEq`; `Slot` uses the product instance) -/
+
+theorem lookup_cons_ite' {κ ν} [DecidableEq κ] [BEq κ] [LawfulBEq κ] (a k : κ) (b : ν) (es : List (κ × ν)) :
+    ((k, b) :: es).lookup a = if a = k then some b else es.lookup a := by
+  rw [List.lookup_cons]
+  by_cases h : a = k
+  · simp [h]
+  · have : (a == k) = false := by simpa using h
+    simp [this, h]
+
+theorem lookup_append_single' {κ ν} [DecidableEq κ] [BEq κ] [LawfulBEq κ] (l : List (κ × ν)) (k k' : κ) (v : ν)
+    (h : l.any (·.1 = k) = false) :
+    (l ++ [(k, v)]).lookup k' = if k' = k then some v else l.lookup k' := by
+  induction l with
+  | nil => simp [lookup_cons_ite']
+  | cons p l ih =>
+    obtain ⟨a, b⟩ := p
+    simp only [List.any_cons, Bool.or_eq_false_iff, decide_eq_false_iff_not] at h
+    simp only [List.cons_append, lookup_cons_ite', ih h.2]
+    by_cases hka : k' = a
+    · subst hka
+      simp [h.1]
+    · simp [hka]
+
+theorem lookup_map_set_ne' {κ ν} [DecidableEq κ] [BEq κ] [LawfulBEq κ] (l : List (κ × ν)) (k k' : κ) (v : ν)
+    (hk : k' ≠ k) :
+    (l.map (fun p => if p.1 = k then (k, v) else p)).lookup k' = l.lookup k' := by
+  induction l with
+  | nil => rfl
+  | cons p l ih =>
+    obtain ⟨a, b⟩ := p
+    simp only [List.map_cons]
+    by_cases hak : a = k
+    · subst hak
+      simp [lookup_cons_ite', ih, hk]
+    · simp [lookup_cons_ite', ih, hak]
+
+theorem lookup_map_set_eq' {κ ν} [DecidableEq κ] [BEq κ] [LawfulBEq κ] (l : List (κ × ν)) (k : κ) (v : ν)
+    (h : l.any (·.1 = k) = true) :
+    (l.map (fun p => if p.1 = k then (k, v) else p)).lookup k = some v := by
+  induction l with
+  | nil => simp at h
+  | cons p l ih =>
+    obtain ⟨a, b⟩ := p
+    simp only [List.map_cons]
+    by_cases hak : a = k
+    · subst hak
+      simp
+    · have hl : l.any (·.1 = k) = true := by
+        simpa only [List.any_cons, hak, decide_false, Bool.false_or] using h
+      have hka : ¬ k = a := fun e => hak e.symm
+      simp [lookup_cons_ite', ih hl, hak, hka]
+
+theorem lookup_map_set' {κ ν} [DecidableEq κ] [BEq κ] [LawfulBEq κ] (l : List (κ × ν)) (k k' : κ) (v : ν)
+    (h : l.any (·.1 = k) = true) :
+    (l.map (fun p => if p.1 = k then (k, v) else p)).lookup k'
+      = if k' = k then some v else l.lookup k' := by
+  by_cases hk : k' = k
+  · subst hk; simp [lookup_map_set_eq' l k' v h]
+  · simp [hk, lookup_map_set_ne' l k k' v hk]
+
+theorem lookup_assocSet' {κ ν} [DecidableEq κ] [BEq κ] [LawfulBEq κ] (l : List (κ × ν)) (k k' : κ) (v : ν) :
+    (assocSet l k v).lookup k' = if k' = k then some v else l.lookup k' := by
+  unfold assocSet
+  by_cases h : l.any (·.1 = k) = true
+  · rw [if_pos h]; exact lookup_map_set' l k k' v h
+  · rw [if_neg h]; exact lookup_append_single' l k k' v (Bool.eq_false_iff.mpr h)
+
+theorem lookup_assocErase' {κ ν} [DecidableEq κ] [BEq κ] [LawfulBEq κ] (l : List (κ × ν)) (k k' : κ) :
+    (assocErase l k).lookup k' = if k' = k then none else l.lookup k' := by
+  unfold assocErase
+  induction l with
+  | nil => simp
+  | cons p l ih =>
+    obtain ⟨a, b⟩ := p
+    rw [List.filter_cons]
+    by_cases hak : a = k
+    · have : decide ((a, b).1 ≠ k) = false := by simp [hak]
+      rw [this, if_neg (by simp), ih, lookup_cons_ite']
+      by_cases hka : k' = k
+      · simp [hka]
+      · have : ¬ k' = a := fun e => hka (e.trans hak)
+        simp [hka, this]
+    · have : decide ((a, b).1 ≠ k) = true := by simp [hak]
+      rw [this, if_pos rfl, lookup_cons_ite', lookup_cons_ite', ih]
+      by_cases hka : k' = a
+      · subst hka
+        simp [hak]
+      · simp [hka]
+
+
+/-! ## core step vs. slot step -/
+
 /-- single sentences are delivered immediately and leave the buffer alone -/
 theorem coreStep_single (bufSize : Nat) (buf : List (Slot × SlotBuf)) (s : Sentence) (h : s.isSingle = true) :
     coreStep bufSize buf s = some (buf, [s]) := by
-  sorry
+  simp [coreStep, h]
 
 /-- a fragment only touches its own slot's entry, and does to it what `slotStep` does -/
 theorem coreStep_multi (bufSize : Nat) (buf : List (Slot × SlotBuf)) (s : Sentence) (h : s.isSingle = false) :
@@ -47,14 +140,113 @@ theorem coreStep_multi (bufSize : Nat) (buf : List (Slot × SlotBuf)) (s : Sente
      | some (buf', out), some (st', out') =>
         out = out' ∧ ∀ k, buf'.lookup k = if k = slotOf s then st' else buf.lookup k
      | _, _ => False) := by
-  sorry
+  have key : ∀ cur : SlotBuf,
+      (match (match (match pySetIdx cur (s.fragNum - 1) (some s) with
+        | none => none
+        | some cur' =>
+          if ((List.filterMap id (List.take s.fragCnt.toNat cur')).length : Int) = s.fragCnt then
+            match assemble (List.filterMap id (List.take s.fragCnt.toNat cur')) with
+            | some full => some (assocErase buf (slotOf s), some full)
+            | none => none
+          else some (assocSet buf (slotOf s) cur', none) : Option (List (Slot × SlotBuf) × Option Sentence)) with
+        | none => none
+        | some (buf, none) => some (buf, [])
+        | some (buf, some full) => some (buf, [full]) : Option (List (Slot × SlotBuf) × List Sentence)),
+        (match pySetIdx cur (s.fragNum - 1) (some s) with
+        | none => none
+        | some cur' =>
+          if ((List.filterMap id (List.take s.fragCnt.toNat cur')).length : Int) = s.fragCnt then
+            match assemble (List.filterMap id (List.take s.fragCnt.toNat cur')) with
+            | some full => some (none, [full])
+            | none => none
+          else some (some cur', []) : Option (Option SlotBuf × List Sentence)) with
+      | none, none => True
+      | some (buf', out), some (st', out') =>
+        out = out' ∧ ∀ k, buf'.lookup k = if k = slotOf s then st' else buf.lookup k
+      | _, _ => False) := by
+    intro cur
+    cases pySetIdx cur (s.fragNum - 1) (some s) with
+    | none => trivial
+    | some cur' =>
+      dsimp only
+      by_cases hc : ((List.filterMap id (List.take s.fragCnt.toNat cur')).length : Int) = s.fragCnt
+      · rw [if_pos hc, if_pos hc]
+        cases assemble (List.filterMap id (List.take s.fragCnt.toNat cur')) with
+        | none => trivial
+        | some full =>
+          dsimp only
+          exact ⟨rfl, fun k => lookup_assocErase' _ _ _⟩
+      · rw [if_neg hc, if_neg hc]
+        dsimp only
+        exact ⟨rfl, fun k => lookup_assocSet' _ _ _ _⟩
+  unfold coreStep bufferStep slotStep
+  rw [if_neg (by simp [h])]
+  dsimp only
+  cases hl : List.lookup (slotOf s) buf with
+  | none => exact key _
+  | some b => exact key _
 
-/-- fragments with `1 ≤ frag_num ≤ bufSize` and `1 ≤ frag_cnt` never raise IndexError -/
-theorem coreRun_ok (bufSize : Nat) (buf : List (Slot × SlotBuf)) (xs : List Sentence)
-    (hbuf : ∀ k b, buf.lookup k = some b → bufSize ≤ b.length)
-    (h : ∀ s ∈ xs, s.isSingle = false → 1 ≤ s.fragNum ∧ s.fragNum ≤ bufSize ∧ 1 ≤ s.fragCnt) :
-    (coreRun bufSize buf xs).2 = true ∧ (coreRun bufSize buf xs).1.length = xs.length := by
-  sorry
+/-! ## unfolding lemmas for the two runs -/
+
+theorem coreRun_cons_none {bufSize : Nat} {buf : List (Slot × SlotBuf)} {s : Sentence} (rest : List Sentence)
+    (h : coreStep bufSize buf s = none) : coreRun bufSize buf (s :: rest) = ([], false) := by
+  simp only [coreRun, h]
+
+theorem coreRun_cons_some {bufSize : Nat} {buf buf' : List (Slot × SlotBuf)} {s : Sentence} {out : List Sentence}
+    (rest : List Sentence) (h : coreStep bufSize buf s = some (buf', out)) :
+    coreRun bufSize buf (s :: rest) = (out :: (coreRun bufSize buf' rest).1, (coreRun bufSize buf' rest).2) := by
+  simp only [coreRun, h]
+
+theorem slotRun_cons_none {bufSize : Nat} {st : Option SlotBuf} {s : Sentence} (rest : List Sentence)
+    (h : slotStep bufSize st s = none) : slotRun bufSize st (s :: rest) = ([], st, false) := by
+  simp only [slotRun, h]
+
+theorem slotRun_cons_some {bufSize : Nat} {st st' : Option SlotBuf} {s : Sentence} {out : List Sentence}
+    (rest : List Sentence) (h : slotStep bufSize st s = some (st', out)) :
+    slotRun bufSize st (s :: rest) =
+      (out :: (slotRun bufSize st' rest).1, (slotRun bufSize st' rest).2.1, (slotRun bufSize st' rest).2.2) := by
+  simp only [slotRun, h]
+
+/-- a successful core step on a sentence outside slot `k` leaves slot `k` alone -/
+theorem coreStep_lookup_other {bufSize : Nat} {buf buf' : List (Slot × SlotBuf)} {s : Sentence}
+    {out : List Sentence} (hc : coreStep bufSize buf s = some (buf', out)) (k : Slot)
+    (hk : inSlot s k = false) : buf'.lookup k = buf.lookup k := by
+  cases hs : s.isSingle with
+  | true =>
+    rw [coreStep_single bufSize buf s hs] at hc
+    simp only [Option.some.injEq, Prod.mk.injEq] at hc
+    rw [← hc.1]
+  | false =>
+    have hne : k ≠ slotOf s := by
+      intro e
+      simp [inSlot, hs, e] at hk
+    have hm := coreStep_multi bufSize buf s hs
+    rw [hc] at hm
+    cases hst : slotStep bufSize (buf.lookup (slotOf s)) s with
+    | none => rw [hst] at hm; exact hm.elim
+    | some r =>
+      obtain ⟨st', out'⟩ := r
+      rw [hst] at hm
+      have := hm.2 k
+      rw [if_neg hne] at this
+      exact this
+
+/-- a successful core step on a fragment of slot `k` is a successful slot step on that slot's entry -/
+theorem coreStep_lookup_self {bufSize : Nat} {buf buf' : List (Slot × SlotBuf)} {s : Sentence}
+    {out : List Sentence} (hc : coreStep bufSize buf s = some (buf', out)) (k : Slot)
+    (hk : inSlot s k = true) : slotStep bufSize (buf.lookup k) s = some (buf'.lookup k, out) := by
+  simp only [inSlot, Bool.and_eq_true, Bool.not_eq_true', beq_iff_eq] at hk
+  obtain ⟨hs, rfl⟩ := hk
+  have hm := coreStep_multi bufSize buf s hs
+  rw [hc] at hm
+  cases hst : slotStep bufSize (buf.lookup (slotOf s)) s with
+  | none => rw [hst] at hm; exact hm.elim
+  | some r =>
+    obtain ⟨st', out'⟩ := r
+    rw [hst] at hm
+    have := hm.2 (slotOf s)
+    rw [if_pos rfl] at this
+    rw [this, hm.1]
 
 /-- **Interleavings are projected away**: what is delivered at the positions of slot `k`'s fragments
 is what the one-slot machine delivers on the subsequence of those fragments, whatever single
@@ -63,13 +255,46 @@ theorem coreRun_project (bufSize : Nat) (buf : List (Slot × SlotBuf)) (xs : Lis
     (hok : (coreRun bufSize buf xs).2 = true) :
     ((xs.zip (coreRun bufSize buf xs).1).filter (fun p => inSlot p.1 k)).map (·.2)
       = (slotRun bufSize (buf.lookup k) (xs.filter (fun s => inSlot s k))).1 := by
-  sorry
+  induction xs generalizing buf with
+  | nil => simp [coreRun, slotRun]
+  | cons s xs ih =>
+    cases hc : coreStep bufSize buf s with
+    | none => rw [coreRun_cons_none xs hc] at hok; exact absurd hok (by decide)
+    | some r =>
+      obtain ⟨buf', out⟩ := r
+      rw [coreRun_cons_some xs hc] at hok ⊢
+      have ih' := ih buf' hok
+      simp only [List.zip_cons_cons, List.filter_cons]
+      cases hk : inSlot s k with
+      | true =>
+        simp only [if_true, List.map_cons]
+        rw [slotRun_cons_some _ (coreStep_lookup_self hc k hk), ih']
+      | false =>
+        simp only [Bool.false_eq_true, if_false]
+        rw [ih', coreStep_lookup_other hc k hk]
 
 /-- single sentences are delivered at their own position, unchanged, in arrival order -/
 theorem coreRun_single (bufSize : Nat) (buf : List (Slot × SlotBuf)) (xs : List Sentence) (i : Nat) (s : Sentence)
     (hok : (coreRun bufSize buf xs).2 = true) (hi : xs[i]? = some s) (h : s.isSingle = true) :
     (coreRun bufSize buf xs).1[i]? = some [s] := by
-  sorry
+  induction xs generalizing buf i with
+  | nil => simp at hi
+  | cons x xs ih =>
+    cases hc : coreStep bufSize buf x with
+    | none => rw [coreRun_cons_none xs hc] at hok; exact absurd hok (by decide)
+    | some r =>
+      obtain ⟨buf', out⟩ := r
+      rw [coreRun_cons_some xs hc] at hok ⊢
+      cases i with
+      | zero =>
+        simp only [List.getElem?_cons_zero, Option.some.injEq] at hi
+        subst hi
+        rw [coreStep_single bufSize buf x h] at hc
+        simp only [Option.some.injEq, Prod.mk.injEq] at hc
+        simp [hc.2]
+      | succ j =>
+        simp only [List.getElem?_cons_succ] at hi ⊢
+        exact ih buf' j hok hi
 
 /-- runs compose -/
 theorem slotRun_append (bufSize : Nat) (st : Option SlotBuf) (a b : List Sentence) :
@@ -79,7 +304,288 @@ theorem slotRun_append (bufSize : Nat) (st : Option SlotBuf) (a b : List Sentenc
          let (outs', fin', ok') := slotRun bufSize fin b
          (outs ++ outs', fin', ok')
        | (outs, fin, false) => (outs, fin, false)) := by
-  sorry
+  induction a generalizing st with
+  | nil => simp [slotRun]
+  | cons s a ih =>
+    cases hs : slotStep bufSize st s with
+    | none => rw [List.cons_append, slotRun_cons_none _ hs, slotRun_cons_none _ hs]
+    | some r =>
+      obtain ⟨st', out⟩ := r
+      rw [List.cons_append, slotRun_cons_some _ hs, slotRun_cons_some _ hs, ih st']
+      rcases slotRun bufSize st' a with ⟨outs, fin, ok⟩
+      cases ok <;> simp
+
+/-! ## no IndexError -/
+
+theorem pySetIdx_ok {α} (l : List α) (i : Int) (v : α) (h0 : 0 ≤ i) (h1 : i < l.length) :
+    pySetIdx l i v = some (l.set i.toNat v) := by
+  unfold pySetIdx
+  have e : (if i < 0 then i + (l.length : Int) else i) = i := if_neg (by omega)
+  simp only [e]
+  rw [if_pos ⟨h0, h1⟩]
+
+theorem assemble_isSome_of_ne_nil (l : List Sentence) (h : l ≠ []) : ∃ full, assemble l = some full := by
+  cases l with
+  | nil => exact absurd rfl h
+  | cons a l => exact ⟨_, rfl⟩
+
+/-- one slot step in bounds succeeds and keeps the buffer at least `bufSize` long -/
+theorem slotStep_ok (bufSize : Nat) (st : Option SlotBuf) (s : Sentence)
+    (hst : ∀ b, st = some b → bufSize ≤ b.length)
+    (h : 1 ≤ s.fragNum ∧ s.fragNum ≤ bufSize ∧ 1 ≤ s.fragCnt) :
+    ∃ st' out, slotStep bufSize st s = some (st', out) ∧ ∀ b, st' = some b → bufSize ≤ b.length := by
+  unfold slotStep
+  dsimp only
+  generalize hcur : (match st with
+    | some b => b
+    | none => List.replicate (max s.fragCnt.toNat bufSize) none) = cur
+  have hlen : bufSize ≤ cur.length := by
+    cases st with
+    | none => subst hcur; simp only [List.length_replicate]; omega
+    | some b => subst hcur; exact hst b rfl
+  rw [pySetIdx_ok cur (s.fragNum - 1) (some s) (by omega) (by omega)]
+  dsimp only
+  split
+  · rename_i hc
+    have hne : List.filterMap id (List.take s.fragCnt.toNat (cur.set (s.fragNum - 1).toNat (some s))) ≠ [] := by
+      intro e
+      rw [e] at hc
+      simp only [List.length_nil] at hc
+      omega
+    obtain ⟨full, hf⟩ := assemble_isSome_of_ne_nil _ hne
+    rw [hf]
+    exact ⟨none, [full], rfl, fun b hb => by cases hb⟩
+  · refine ⟨_, _, rfl, fun b hb => ?_⟩
+    simp only [Option.some.injEq] at hb
+    subst hb
+    simpa using hlen
+
+theorem coreStep_ok (bufSize : Nat) (buf : List (Slot × SlotBuf)) (s : Sentence)
+    (hbuf : ∀ k b, buf.lookup k = some b → bufSize ≤ b.length)
+    (h : s.isSingle = false → 1 ≤ s.fragNum ∧ s.fragNum ≤ bufSize ∧ 1 ≤ s.fragCnt) :
+    ∃ buf' out, coreStep bufSize buf s = some (buf', out) ∧
+      ∀ k b, buf'.lookup k = some b → bufSize ≤ b.length := by
+  cases hs : s.isSingle with
+  | true => exact ⟨buf, [s], coreStep_single bufSize buf s hs, hbuf⟩
+  | false =>
+    obtain ⟨st', out', hst, hlen⟩ := slotStep_ok bufSize (buf.lookup (slotOf s)) s (hbuf _) (h hs)
+    have hm := coreStep_multi bufSize buf s hs
+    rw [hst] at hm
+    cases hc : coreStep bufSize buf s with
+    | none => rw [hc] at hm; exact hm.elim
+    | some r =>
+      obtain ⟨buf', out⟩ := r
+      rw [hc] at hm
+      refine ⟨buf', out, rfl, fun k b hb => ?_⟩
+      rw [hm.2 k] at hb
+      by_cases hk : k = slotOf s
+      · rw [if_pos hk] at hb; exact hlen b hb
+      · rw [if_neg hk] at hb; exact hbuf k b hb
+
+/-- fragments with `1 ≤ frag_num ≤ bufSize` and `1 ≤ frag_cnt` never raise IndexError -/
+theorem coreRun_ok (bufSize : Nat) (buf : List (Slot × SlotBuf)) (xs : List Sentence)
+    (hbuf : ∀ k b, buf.lookup k = some b → bufSize ≤ b.length)
+    (h : ∀ s ∈ xs, s.isSingle = false → 1 ≤ s.fragNum ∧ s.fragNum ≤ bufSize ∧ 1 ≤ s.fragCnt) :
+    (coreRun bufSize buf xs).2 = true ∧ (coreRun bufSize buf xs).1.length = xs.length := by
+  induction xs generalizing buf with
+  | nil => simp [coreRun]
+  | cons s xs ih =>
+    obtain ⟨buf', out, hc, hbuf'⟩ := coreStep_ok bufSize buf s hbuf (h s (by simp))
+    rw [coreRun_cons_some xs hc]
+    have := ih buf' hbuf' (fun s' hs' => h s' (by simp [hs']))
+    simp only [List.length_cons]
+    exact ⟨this.1, by rw [this.2]⟩
+
+/-! ## one message in isolation -/
+
+theorem slot_filterMap_set_len {α} (l : List (Option α)) (i : Nat) (x : α) (h : l[i]? = some none) :
+    ((l.set i (some x)).filterMap id).length = (l.filterMap id).length + 1 := by
+  induction l generalizing i with
+  | nil => simp at h
+  | cons a as ih =>
+    cases i with
+    | zero =>
+      simp at h; subst h; simp
+    | succ j =>
+      simp at h
+      cases a <;> simp [List.set, ih j h]
+
+theorem slot_filterMap_id_map_some {α β} (f : α → β) (l : List α) :
+    (l.map (fun x => some (f x))).filterMap id = l.map f := by
+  induction l with
+  | nil => rfl
+  | cons a l ih => simp [ih]
+
+/-- the slot step on fragment `k` of `n` (`n ≤ bufSize`), with the casts removed -/
+theorem slotStep_frag (bufSize n k : Nat) (hn : n ≤ bufSize) (hk1 : 1 ≤ k) (hkn : k ≤ n) (s : Sentence)
+    (hnum : s.fragNum = (k : Int)) (hcnt : s.fragCnt = (n : Int)) (st : Option SlotBuf)
+    (hlen : (st.getD (List.replicate bufSize none)).length = bufSize) :
+    slotStep bufSize st s =
+      if ((((st.getD (List.replicate bufSize none)).set (k - 1) (some s)).take n).filterMap id).length = n then
+        (match assemble ((((st.getD (List.replicate bufSize none)).set (k - 1) (some s)).take n).filterMap id) with
+         | some full => some (none, [full])
+         | none => none)
+      else some (some ((st.getD (List.replicate bufSize none)).set (k - 1) (some s)), []) := by
+  unfold slotStep
+  dsimp only
+  have hcur : (match (generalizing := false) st with
+      | some b => b
+      | none => List.replicate (max s.fragCnt.toNat bufSize) none) = st.getD (List.replicate bufSize none) := by
+    cases st with
+    | none => simp [hcnt, Nat.max_eq_right hn]
+    | some b => rfl
+  rw [hcur, pySetIdx_ok _ _ _ (by omega) (by omega)]
+  have e1 : (s.fragNum - 1).toNat = k - 1 := by omega
+  have e2 : s.fragCnt.toNat = n := by omega
+  rw [e1, e2, hcnt]
+  dsimp only
+  simp only [Int.natCast_inj]
+
+/-- pointwise description of a slot buffer -/
+def SlotDesc (L : Nat) (b : SlotBuf) (g : Nat → Option Sentence) : Prop :=
+  b.length = L ∧ ∀ i, i < L → b[i]? = some (g i)
+
+theorem take_eq_map_of_slotDesc {L : Nat} {b : SlotBuf} {g : Nat → Option Sentence} (h : SlotDesc L b g)
+    (n : Nat) (hn : n ≤ L) : b.take n = (List.range n).map g := by
+  apply List.ext_getElem?
+  intro i
+  by_cases hi : i < n
+  · rw [List.getElem?_take_of_lt hi, h.2 i (by omega)]
+    simp [hi]
+  · rw [List.getElem?_eq_none (by simp [List.length_take]; omega)]
+    rw [List.getElem?_eq_none (by simp; omega)]
+
+theorem slotDesc_set {L : Nat} {b : SlotBuf} {g : Nat → Option Sentence} (h : SlotDesc L b g) (k : Nat)
+    (f : Sentence) (hk : k < L) :
+    SlotDesc L (b.set k (some f)) (fun i => if i = k then some f else g i) := by
+  refine ⟨by simp [h.1], ?_⟩
+  intro i hi
+  rw [List.getElem?_set]
+  by_cases hik : k = i
+  · subst hik; simp [h.1, hk]
+  · have : i ≠ k := fun e => hik e.symm
+    simp [hik, this, h.2 i hi]
+
+theorem slotDesc_empty (L : Nat) : SlotDesc L (List.replicate L none) (fun _ => none) := by
+  refine ⟨by simp, ?_⟩
+  intro i hi
+  simp [hi]
+
+/-- the buffer contents after the fragments with numbers in `q` have arrived -/
+def slotFragFn (all : Nat → Sentence) (q : List Nat) : Nat → Option Sentence :=
+  fun i => if i + 1 ∈ q then some (all (i + 1)) else none
+
+/-- the state reached after the fragments with numbers in `q` of an `n`-fragment message -/
+structure SlotInv (bufSize n : Nat) (all : Nat → Sentence) (q : List Nat) (st : Option SlotBuf) : Prop where
+  desc : SlotDesc bufSize (st.getD (List.replicate bufSize none)) (slotFragFn all q)
+  cnt : (((st.getD (List.replicate bufSize none)).take n).filterMap id).length = q.length
+
+theorem slotInv_init (bufSize n : Nat) (all : Nat → Sentence) : SlotInv bufSize n all [] none := by
+  constructor
+  · have : slotFragFn all [] = fun _ => none := by funext i; simp [slotFragFn]
+    rw [this]
+    exact slotDesc_empty bufSize
+  · simp
+
+theorem slotStep_spec (bufSize n : Nat) (hn : n ≤ bufSize) (all : Nat → Sentence)
+    (hall : ∀ k, (all k).fragNum = (k : Int) ∧ (all k).fragCnt = (n : Int))
+    (q : List Nat) (st : Option SlotBuf) (hinv : SlotInv bufSize n all q st)
+    (k : Nat) (hk1 : 1 ≤ k) (hkn : k ≤ n) (hkq : k ∉ q) :
+    (q.length + 1 = n → slotStep bufSize st (all k) =
+        (match assemble (((List.range n).map (slotFragFn all (k :: q))).filterMap id) with
+         | some full => some (none, [full])
+         | none => none)) ∧
+    (q.length + 1 ≠ n → ∃ st', slotStep bufSize st (all k) = some (st', []) ∧
+        SlotInv bufSize n all (k :: q) st') := by
+  have hdesc := hinv.desc
+  have hk' : k - 1 < bufSize := by omega
+  have hnone : (st.getD (List.replicate bufSize none))[k - 1]? = some none := by
+    have := hdesc.2 (k - 1) hk'
+    have e : k - 1 + 1 = k := by omega
+    simpa [slotFragFn, e, hkq] using this
+  have hdesc' := slotDesc_set hdesc (k - 1) (all k) hk'
+  have hg : (fun i => if i = k - 1 then some (all k) else slotFragFn all q i) = slotFragFn all (k :: q) := by
+    funext i
+    simp only [slotFragFn, List.mem_cons]
+    by_cases hi : i = k - 1
+    · subst hi
+      have e : k - 1 + 1 = k := by omega
+      simp [e]
+    · have : i + 1 ≠ k := by omega
+      simp [hi, this]
+  rw [hg] at hdesc'
+  have hlen : ((((st.getD (List.replicate bufSize none)).set (k - 1) (some (all k))).take n).filterMap id).length
+      = q.length + 1 := by
+    rw [List.take_set, slot_filterMap_set_len _ _ _ (by rw [List.getElem?_take_of_lt (by omega)]; exact hnone),
+      hinv.cnt]
+  rw [slotStep_frag bufSize n k hn hk1 hkn (all k) (hall k).1 (hall k).2 st hdesc.1, hlen]
+  constructor
+  · intro hfull
+    rw [if_pos hfull, take_eq_map_of_slotDesc hdesc' n hn]
+  · intro hnot
+    rw [if_neg hnot]
+    refine ⟨_, rfl, ?_, ?_⟩
+    · simpa using hdesc'
+    · simpa using hlen
+
+/-- when every fragment number is present, the collected parts are the fragments in order -/
+theorem slotParts_complete (n : Nat) (all : Nat → Sentence) (q : List Nat)
+    (hq : ∀ j, 1 ≤ j → j ≤ n → j ∈ q) :
+    ((List.range n).map (slotFragFn all q)).filterMap id = (List.range' 1 n).map all := by
+  have : (List.range n).map (slotFragFn all q) = (List.range n).map (fun i => some (all (1 + i))) := by
+    apply List.map_congr_left
+    intro i hi
+    rw [List.mem_range] at hi
+    simp [slotFragFn, hq (i + 1) (by omega) (by omega), Nat.add_comm]
+  rw [this, slot_filterMap_id_map_some, List.range'_eq_map_range, List.map_map]
+  rfl
+
+/-- the rest of a block: the fragments `q` have arrived, the fragments `post` complete the set -/
+theorem slotRun_rest (bufSize n : Nat) (hn : n ≤ bufSize) (all : Nat → Sentence)
+    (hall : ∀ k, (all k).fragNum = (k : Int) ∧ (all k).fragCnt = (n : Int))
+    (post : List Nat) (hpost : post ≠ []) (q : List Nat) (st : Option SlotBuf)
+    (hinv : SlotInv bufSize n all q st) (hperm : (q ++ post).Perm (List.range' 1 n)) :
+    slotRun bufSize st (post.map all) =
+      (List.replicate (post.length - 1) [] ++ [(assemble ((List.range' 1 n).map all)).toList], none, true) := by
+  induction post generalizing q st with
+  | nil => exact absurd rfl hpost
+  | cons k post ih =>
+    have hnd : (q ++ k :: post).Nodup := hperm.nodup_iff.mpr (List.nodup_range' 1)
+    have hk : 1 ≤ k ∧ k ≤ n := by
+      have : k ∈ List.range' 1 n := hperm.mem_iff.mp (by simp)
+      rw [List.mem_range'_1] at this
+      omega
+    have hkq : k ∉ q := by
+      intro hkq
+      rw [List.nodup_append] at hnd
+      exact hnd.2.2 k hkq k (by simp) rfl
+    have hlen : q.length + (post.length + 1) = n := by
+      have := hperm.length_eq
+      simpa using this
+    have hspec := slotStep_spec bufSize n hn all hall q st hinv k hk.1 hk.2 hkq
+    have hperm' : ((k :: q) ++ post).Perm (List.range' 1 n) := List.perm_middle.symm.trans hperm
+    cases post with
+    | nil =>
+      have hfull : q.length + 1 = n := by simpa using hlen
+      have hs := hspec.1 hfull
+      rw [slotParts_complete n all (k :: q) (fun j h1 h2 => by
+        have : j ∈ List.range' 1 n := by rw [List.mem_range'_1]; omega
+        simpa using hperm'.mem_iff.mpr this)] at hs
+      have hne : (List.range' 1 n).map all ≠ [] := by
+        intro e
+        have := congrArg List.length e
+        simp at this
+        omega
+      obtain ⟨full, hf⟩ := assemble_isSome_of_ne_nil _ hne
+      rw [hf] at hs ⊢
+      simp only [List.map_cons, List.map_nil]
+      rw [slotRun_cons_some _ hs]
+      simp [slotRun]
+    | cons k' post =>
+      have hnot : q.length + 1 ≠ n := by simp at hlen; omega
+      obtain ⟨st', hs, hinv'⟩ := hspec.2 hnot
+      rw [List.map_cons, slotRun_cons_some _ hs, ih (by simp) (k :: q) st' hinv' hperm']
+      simp [List.replicate_succ]
 
 /-- **One message in isolation.** Any permutation of the fragments `1 … n` of one message
 (`all k` is fragment `k`, `n ≤ bufSize`) put into a free slot: nothing is delivered before the last
@@ -90,15 +596,66 @@ theorem slotRun_block (bufSize n : Nat) (hn1 : 1 ≤ n) (hn : n ≤ bufSize) (al
     (ks : List Nat) (hperm : ks.Perm (List.range' 1 n)) :
     slotRun bufSize none (ks.map all) =
       (List.replicate (n - 1) [] ++ [(assemble ((List.range' 1 n).map all)).toList], none, true) := by
-  sorry
+  have hlen : ks.length = n := by simpa using hperm.length_eq
+  have hne : ks ≠ [] := by
+    intro e
+    rw [e] at hlen
+    simp at hlen
+    omega
+  rw [slotRun_rest bufSize n hn all hall ks hne [] none (slotInv_init bufSize n all) (by simpa using hperm), hlen]
+
+/-- fragments `post` arrive after `q`, the set stays incomplete -/
+theorem slotRun_partial (bufSize n : Nat) (hn : n ≤ bufSize) (all : Nat → Sentence)
+    (hall : ∀ k, (all k).fragNum = (k : Int) ∧ (all k).fragCnt = (n : Int))
+    (post : List Nat) (q : List Nat) (st : Option SlotBuf)
+    (hinv : SlotInv bufSize n all q st) (hsub : ∀ k ∈ post, 1 ≤ k ∧ k ≤ n)
+    (hnodup : (q ++ post).Nodup) (hlt : q.length + post.length < n) :
+    (slotRun bufSize st (post.map all)).1 = List.replicate post.length [] ∧
+    (slotRun bufSize st (post.map all)).2.2 = true := by
+  induction post generalizing q st with
+  | nil => simp [slotRun]
+  | cons k post ih =>
+    have hk := hsub k (by simp)
+    have hkq : k ∉ q := by
+      intro hkq
+      rw [List.nodup_append] at hnodup
+      exact hnodup.2.2 k hkq k (by simp) rfl
+    have hnot : q.length + 1 ≠ n := by simp at hlt; omega
+    obtain ⟨st', hs, hinv'⟩ := (slotStep_spec bufSize n hn all hall q st hinv k hk.1 hk.2 hkq).2 hnot
+    have hnd' : ((k :: q) ++ post).Nodup := List.perm_middle.nodup_iff.mp hnodup
+    have := ih (k :: q) st' hinv' (fun j hj => hsub j (by simp [hj])) hnd' (by simp at hlt ⊢; omega)
+    rw [List.map_cons, slotRun_cons_some _ hs]
+    simp only [List.length_cons, List.replicate_succ]
+    exact ⟨by rw [this.1], this.2⟩
 
 /-- an incomplete fragment set is never delivered -/
 theorem slotRun_incomplete (bufSize n : Nat) (hn : n ≤ bufSize) (all : Nat → Sentence)
     (hall : ∀ k, (all k).fragNum = (k : Int) ∧ (all k).fragCnt = (n : Int))
     (ks : List Nat) (hsub : ∀ k ∈ ks, 1 ≤ k ∧ k ≤ n) (hnodup : ks.Nodup) (hlt : ks.length < n) :
     (slotRun bufSize none (ks.map all)).1 = List.replicate ks.length [] ∧
-    (slotRun bufSize none (ks.map all)).2.2 = true := by
-  sorry
+    (slotRun bufSize none (ks.map all)).2.2 = true :=
+  slotRun_partial bufSize n hn all hall ks [] none (slotInv_init bufSize n all) hsub (by simpa using hnodup)
+    (by simpa using hlt)
+
+/-! ## what the assembled message is -/
+
+theorem insertByNum_lt' (x y : Sentence) (ys : List Sentence) (h : x.fragNum < y.fragNum) :
+    insertByNum x (y :: ys) = x :: y :: ys := by
+  simp only [insertByNum]
+  rw [if_neg (by omega)]
+
+/-- a list that is strictly ascending in the fragment number is left alone by the stable sort -/
+theorem sortByNum_sorted' (l : List Sentence) (h : l.Pairwise (fun a b => a.fragNum < b.fragNum)) :
+    sortByNum l = l := by
+  induction l with
+  | nil => rfl
+  | cons x xs ih =>
+    rw [List.pairwise_cons] at h
+    have e : sortByNum (x :: xs) = insertByNum x (sortByNum xs) := rfl
+    rw [e, ih h.2]
+    cases xs with
+    | nil => rfl
+    | cons y ys => exact insertByNum_lt' x y ys (h.1 y (by simp))
 
 /-- what an assembled message is: the first fragment's carrier fields, the raw lines joined by
 newlines, payload and bits concatenated in fragment-number order, validity the conjunction -/
@@ -111,6 +668,26 @@ theorem assemble_canon (n : Nat) (hn1 : 1 ≤ n) (all : Nat → Sentence)
         bits := ((List.range' 1 n).map fun k => (all k).bits).flatten,
         isValid := (List.range' 1 n).all fun k => (all k).isValid,
         aisId := getInt (((List.range' 1 n).map fun k => (all k).bits).flatten) 0 6 } := by
-  sorry
+  obtain ⟨m, rfl⟩ : ∃ m, n = m + 1 := ⟨n - 1, by omega⟩
+  have hs : sortByNum ((List.range' 1 (m + 1)).map all) = (List.range' 1 (m + 1)).map all := by
+    apply sortByNum_sorted'
+    rw [List.pairwise_map]
+    refine (List.pairwise_lt_range' 1).imp ?_
+    intro a b hab
+    rw [hall a, hall b]
+    omega
+  have hcons : (List.range' 1 (m + 1)).map all = all 1 :: (List.range' 2 m).map all := by
+    rw [List.range'_succ, List.map_cons]
+  have hasm : assemble ((List.range' 1 (m + 1)).map all) =
+      some { all 1 with
+        raw := [10].intercalate ((sortByNum ((List.range' 1 (m + 1)).map all)).map (·.raw)),
+        payload := ((sortByNum ((List.range' 1 (m + 1)).map all)).map (·.payload)).flatten,
+        bits := ((sortByNum ((List.range' 1 (m + 1)).map all)).map (·.bits)).flatten,
+        isValid := (sortByNum ((List.range' 1 (m + 1)).map all)).all (·.isValid),
+        aisId := getInt (((sortByNum ((List.range' 1 (m + 1)).map all)).map (·.bits)).flatten) 0 6 } := by
+    rw [hcons]
+    rfl
+  rw [hasm, hs]
+  simp only [List.map_map, List.all_map, Function.comp_def]
 
 end Model
